@@ -190,4 +190,6 @@ def run(chk, ctx):
     r4(chk, ctx, p, se)
     from . import round3
     round3.tidy_up_callers(chk, ctx)            # siblings are only torn down when their fan-out really failed
+    from . import round4
+    round4.cancelled_wait_reports_canceller(chk, ctx)
     chk.assume("given the decided clauses, whether a late sibling can still disturb the outcome depends on delivery order (not decided)")
